@@ -247,4 +247,274 @@ class SwitchEnqueue(ForwardBase):
                 ex.oblige(s, 'exit: no exception escapes the forwarding thread (switch(x) valid: user precondition)', False)
 
 
+
+# ================================================================ EnsembleServlet._dequeue (C02 pairing, C04 failure rules)
+m_uid = z3.Function('member_out_uid', z3.IntSort(), z3.IntSort(), Val)        # uid of the k-th item member i puts on its output queue
+m_y = z3.Function('member_out_y', z3.IntSort(), z3.IntSort(), Val)            # ... and its value (result or exception value)
+ensemble_error = z3.Function('EnsembleError', z3.ArraySort(z3.IntSort(), Val), z3.IntSort(), Val)     # EnsembleError({'y': slots, 'n': n})
+all_remote = z3.Function('all_slots_are_RemoteException', z3.ArraySort(z3.IntSort(), Val), z3.BoolSort())
+not_remote_witness = z3.Function('slot_that_is_not_RemoteException', z3.ArraySort(z3.IntSort(), Val), z3.IntSort())
+as_list = z3.Function('list_of_slots', z3.ArraySort(z3.IntSort(), Val), z3.IntSort(), Val)             # the python list z['y'] (nn slots)
+IntArr = z3.ArraySort(z3.IntSort(), Val)
+
+
+class Catalog(Obj):
+    """self._uid_to_results: uid -> {'y': [slot]*nn, 'n': count}.  Abstract state: present(uid), n(uid), slots(uid) : Int -> Val.
+    Entries are created by the forwarding thread (_enqueue: n = 0, all slots None) at any time: interference re-draws the state of
+    every uid except that the entry of the uid in hand is only changed by THIS thread (single dequeuer)."""
+    trusted = 'dict/list element operations are atomic (GIL)'
+
+    def init(self, st):
+        self.set(st, 'present', z3.Const('catalog_present', z3.ArraySort(Val, z3.BoolSort())))
+        self.set(st, 'n', z3.Const('catalog_n', z3.ArraySort(Val, z3.IntSort())))
+        self.set(st, 'slots', z3.Const('catalog_slots', z3.ArraySort(Val, IntArr)))
+        return self
+
+    def havoc(self, ex, st):
+        for f, srt in (('present', z3.ArraySort(Val, z3.BoolSort())), ('n', z3.ArraySort(Val, z3.IntSort())), ('slots', z3.ArraySort(Val, IntArr))):
+            self.set(st, f, fresh('catalog_' + f, srt))
+
+    def m_get(self, ex, st, args, kwargs, node):
+        uid = box(ex, args[0])
+        s1 = st.fork().assume(z3.Select(self.get(st, 'present'), uid))
+        s2 = st.fork().assume(z3.Not(z3.Select(self.get(st, 'present'), uid)))
+        return [x for x in (('ok', s1, Entry(ex, self, uid)), ('ok', s2, NONE)) if ex.feasible(x[1])]
+
+    def m_pop(self, ex, st, args, kwargs, node):
+        uid = box(ex, args[0])
+        ex.oblige(st, f'line {node.lineno}: the entry being removed exists', z3.Select(self.get(st, 'present'), uid))
+        st = st.fork()
+        self.set(st, 'present', z3.Store(self.get(st, 'present'), uid, z3.BoolVal(False)))
+        st.ghost['popped'] = st.ghost['popped'] + (uid,)
+        return [('ok', st, Entry(ex, self, uid))]
+
+
+class Entry(Obj):
+    """the dict z = catalog[uid] (shared, mutable): reads and writes go to the catalog's abstract state for that uid"""
+
+    def __init__(self, ex, cat, uid):
+        super().__init__(ex, 'entry')
+        self.cat, self.uid = cat, uid
+
+    def havoc(self, ex, st):
+        pass
+
+    def val(self):
+        return z3.Function('entry_of', Val, Val)(self.uid)
+
+    def getitem(self, ex, st, idx, node):
+        if z3.is_string_value(idx) and idx.as_string() == 'n':
+            return [('ok', st, z3.Select(self.cat.get(st, 'n'), self.uid))]
+        if z3.is_string_value(idx) and idx.as_string() == 'y':
+            return [('ok', st, Slots(ex, self.cat, self.uid))]
+        raise Unsupported('entry key')
+
+    def setitem(self, ex, st, idx, v, node):
+        if z3.is_string_value(idx) and idx.as_string() == 'n':
+            st = st.fork()
+            self.cat.set(st, 'n', z3.Store(self.cat.get(st, 'n'), self.uid, as_int(ex, st, v)))
+            return [('ok', st, None)]
+        raise Unsupported('entry store')
+
+
+class Slots(Obj):
+    def __init__(self, ex, cat, uid):
+        super().__init__(ex, 'slots')
+        self.cat, self.uid = cat, uid
+
+    def havoc(self, ex, st):
+        pass
+
+    def arr(self, st):
+        return z3.Select(self.cat.get(st, 'slots'), self.uid)
+
+    def val_in(self, st, nn):
+        return as_list(self.arr(st), nn)
+
+    def setitem(self, ex, st, idx, v, node):
+        i = as_int(ex, st, idx)
+        st = st.fork()
+        ex.unit.slot_written(ex, st, self.uid, i, box(ex, v), node)
+        self.cat.set(st, 'slots', z3.Store(self.cat.get(st, 'slots'), self.uid, z3.Store(self.arr(st), i, box(ex, v))))
+        return [('ok', st, None)]
+
+
+class MemberOut(Obj):
+    """output queue of member #i as seen by the single dequeuer: the k-th get returns (m_uid(i,k), m_y(i,k)) or the end marker"""
+
+    def __init__(self, ex, unit, i):
+        super().__init__(ex, 'member_out')
+        self.u, self.i = unit, i
+
+    def havoc(self, ex, st):
+        pass
+
+    def m_empty(self, ex, st, args, kwargs, node):
+        return [('ok', st, fresh('member_out_empty', z3.BoolSort()))]
+
+    def m_get(self, ex, st, args, kwargs, node):
+        k = fresh('k_th_item', z3.IntSort())
+        st = st.fork().assume(k >= 0)
+        s1 = st.fork()
+        s1.ghost['cur'] = (self.i, k)
+        s1.assume(*V.cls_facts(m_y(self.i, k)), *V.cls_facts(m_uid(self.i, k)))
+        s2 = st.fork()
+        s2.ghost['cur'] = None
+        return [('ok', s1, PyTuple([m_uid(self.i, k), m_y(self.i, k)])), ('ok', s2, NONE)]
+
+
+class EnsembleDequeue(Unit):
+    """EnsembleServlet._dequeue.  Proved per item taken from member #idx's output queue (uid, y), for every state of the catalog:
+      * (pairing, C02) the value goes into slot idx of the entry of ITS OWN uid, wrapped in RemoteException if it is a bare exception;
+        the count of that entry goes up by one; no other entry, no other slot is touched;
+      * (C04, fail_fast) the first exception value for a uid removes its entry and answers that uid -- once -- with
+        RemoteException(EnsembleError(entry)); later results for the uid find no entry and are dropped;
+      * (C04, complete) when the count reaches the number of members the entry is removed and the uid answered -- once -- with the list of the
+        nn slots, or with RemoteException(EnsembleError(entry)) exactly when every slot is a RemoteException;
+      * anything put on the output queue is the end marker or an answer for the uid just received; the end marker is forwarded and ends the loop."""
+    prop = 'C02'
+    file = F
+    qual = 'EnsembleServlet._dequeue'
+    fail_fast = None
+    ignore_calls = ('sleep',)
+    expected_exits = ('normal',)
+    canaries = (('result stored in the neighbouring slot', "z['y'][idx] = y", "z['y'][idx - 1] = y", 'own slot'),
+                ('entry not removed when answered', "                    elif z['n'] == nn:\n                        # All results", "                    elif z['n'] >= 1:\n                        # All results", ''),
+                ('partial failure reported as total failure', "if all(isinstance(v, RemoteException) for v in z['y']):", "if isinstance(y, RemoteException):", ''),
+                ('answer under another uid', 'qout.put((uid, y))', 'qout.put((idx, y))', 'own uid'))
+
+    def setup(self, ex):
+        st = St()
+        from contracts.c11 import Family
+        self.nn = z3.Int('n_members')
+        st.assume(self.nn >= 1)
+        self.cat = Catalog(ex, 'catalog').init(st)
+        self.qout = QueueWriter(ex, 'qout')
+        self.qout.init(st)
+        self.ff = z3.Bool('fail_fast')
+        self.qouts = Family(ex, 'qouts', self.nn, lambda i: MemberOut(ex, self, i))
+        me = Rec(ex, 'self', immutable=True).init(st, _qout=self.qout, _qouts=self.qouts, _uid_to_results=self.cat, _fail_fast=self.ff)
+        st.env['self'] = me
+        st.ghost['cur'] = None
+        st.ghost['popped'] = ()
+        st.ghost['puts'] = ()
+        st.ghost['slot_writes'] = ()
+        ex.globals['RemoteException'] = ExcClass('RemoteException')
+        self.mk_remote = mk_remote(ex)
+        return st
+
+    def on_call(self, ex, st, e, src):
+        if src == 'RemoteException':
+            return ex.bind(ex.evargs(e, st), lambda s, ak: self.mk_remote.invoke(ex, s, ak[0], ak[1], e))
+        if src == 'EnsembleError':
+            def f(s, ak):
+                z = unbox_handle(ex, ak[0][0])
+                if not isinstance(z, Entry):
+                    raise Unsupported('EnsembleError of a non-entry')
+                exc = ensemble_error(z3.Select(self.cat.get(s, 'slots'), z.uid), z3.Select(self.cat.get(s, 'n'), z.uid))
+                s = s.fork().assume(V.ucls(exc) == V.K['EnsembleError'], *V.cls_facts(exc))
+                return [('ok', s, exc)]
+            return ex.bind(ex.evargs(e, st), f)
+        if src == 'all' and len(e.args) == 1 and isinstance(e.args[0], ast.GeneratorExp):
+            g = e.args[0]
+            if ast.unparse(g) == "(isinstance(v, RemoteException) for v in z['y'])":
+                def f(s, ys):
+                    ys = unbox_handle(ex, ys)
+                    if not isinstance(ys, Slots):
+                        raise Unsupported('all() over something else')
+                    a = ys.arr(s)
+                    j = z3.Int('any_slot')
+                    w = not_remote_witness(a)
+                    s = s.fork().assume(z3.Implies(all_remote(a), z3.Implies(z3.And(j >= 0, j < self.nn), V.isinst(z3.Select(a, j), 'RemoteException'))),
+                                        z3.Implies(z3.Not(all_remote(a)), z3.And(w >= 0, w < self.nn, z3.Not(V.isinst(z3.Select(a, w), 'RemoteException')))))
+                    return [('ok', s, all_remote(a))]
+                return ex.bind(ex.ev(g.generators[0].iter, st), f)
+        return None
+
+    def slot_written(self, ex, st, uid, i, v, node):
+        cur = st.ghost['cur']
+        if cur is None:
+            ex.oblige(st, f'line {node.lineno}: slot written without an item in hand', False)
+            return
+        mi, k = cur
+        y = m_y(mi, k)
+        ex.oblige(st, f'line {node.lineno}: [C02] the value from member #idx goes into its own slot idx of the entry of its own uid, wrapped in RemoteException if it is a bare exception (own slot, own uid)',
+                  z3.And(uid == m_uid(mi, k), i == mi, v == z3.If(z3.And(V.isinst(y, 'BaseException'), z3.Not(V.isinst(y, 'RemoteException'))), remote(y), y)))
+        st.ghost['slot_writes'] = st.ghost['slot_writes'] + ((uid, i),)
+
+    def on_put(self, ex, st, q, k, item, node):
+        cur = st.ghost['cur']
+        item_u = unbox_handle(ex, item)
+        if cur is None:
+            ex.oblige(st, f'line {node.lineno}: the end marker is forwarded as is', box(ex, item) == NONE)
+            st.ghost['puts'] = st.ghost['puts'] + ('end',)
+            return
+        mi, kk = cur
+        uid = m_uid(mi, kk)
+        ok = isinstance(item_u, PyTuple) and len(item_u.items) == 2
+        if not ok:
+            ex.oblige(st, f'line {node.lineno}: an answer is a (uid, value) pair', False)
+            return
+        slots = z3.Select(self.cat.get(st, 'slots'), uid)
+        n = z3.Select(self.cat.get(st, 'n'), uid)
+        raw = unbox_handle(ex, item_u.items[1])
+        v = raw.val_in(st, self.nn) if isinstance(raw, Slots) and raw.uid.eq(uid) else box(ex, item_u.items[1])      # the list object z['y'] itself: its value now
+        err = remote(ensemble_error(slots, n))
+        this = z3.Select(slots, mi)
+        failed_fast = z3.And(self.ff, V.isinst(this, 'RemoteException'))
+        want = z3.If(failed_fast, err, z3.If(all_remote(slots), err, box(ex, Slots(ex, self.cat, uid).val_in(st, self.nn))))
+        ex.oblige(st, f'line {node.lineno}: [C02/C04] the answer goes out under the uid just received (own uid), after its entry was removed (so: once), and is: with fail_fast, at the first exception value, '
+                      'RemoteException(EnsembleError(entry)); otherwise, when all members have answered, the list of the nn slots -- or RemoteException(EnsembleError(entry)) exactly when every slot is a RemoteException',
+                  z3.And(box(ex, item_u.items[0]) == uid, z3.Not(z3.Select(self.cat.get(st, 'present'), uid)), z3.BoolVal(st.ghost['popped'] == (uid,) or (len(st.ghost['popped']) == 1 and st.ghost['popped'][0].eq(uid))),
+                         z3.Or(failed_fast, n == self.nn), v == want))
+        st.ghost['puts'] = st.ghost['puts'] + ('answer',)
+
+    @property
+    def loops(self):
+        def head_inner(h, ex):
+            h.ghost['cur'] = None
+            h.ghost['popped'] = ()
+            h.ghost['puts'] = ()
+            h.ghost['slot_writes'] = ()
+
+        def back_inner(s, ex):
+            cur = s.ghost['cur']
+            if cur is None:
+                ex.oblige(s, 'iteration: an end marker never lets the loop go on', False)
+                return
+            mi, k = cur
+            uid = m_uid(mi, k)
+            puts, sw, popped = s.ghost['puts'], s.ghost['slot_writes'], s.ghost['popped']
+            ex.oblige(s, 'iteration: one item taken -> at most one slot write (own slot), at most one answer, and an answer only together with the removal of the entry',
+                      z3.BoolVal(len(sw) <= 1 and len(puts) <= 1 and len(popped) == len(puts) and (len(puts) == 0 or len(sw) == 1)))
+        t = LoopSpec(inv=lambda s, ex: z3.BoolVal(True))
+        sp_for = LoopSpec(inv=lambda s, ex: z3.BoolVal(True))
+        sp_in = LoopSpec(inv=lambda s, ex: z3.BoolVal(True), at_head=head_inner)
+        sp_in.on_backedge = back_inner
+        return {0: t, 1: sp_for, 2: sp_in}
+
+    def post(self, ex, outs):
+        for k, s, p in outs:
+            if k in ('normal', 'return'):
+                ex.oblige(s, 'exit: only after the end marker of a member was taken, and forwarded once', z3.BoolVal(s.ghost['cur'] is None and s.ghost['puts'] == ('end',)))
+            else:
+                ex.oblige(s, 'exit: the collecting thread never dies with an exception', False)
+
+
+class EnsembleDequeueLemma(LemmaUnit):
+    """Counting lemma over the per-item contract: entries start with n = 0 and nn empty slots (unit EnsembleServlet._enqueue); each member answers
+    each uid at most once (C02 worker contracts), so the writes to an entry hit distinct slots and n == number of filled slots; hence when
+    n == nn every slot holds its member's value: the answer list pairs member i's result with position i."""
+    prop = 'C02'
+    qual = 'lemma(ensemble collection)'
+
+    def lemmas(self):
+        n, nn, filled = z3.Ints('n nn filled_slots')
+        new_slot_empty = z3.Bool('slot_idx_was_empty')
+        yield ('step: a write to a so-far empty slot keeps n == #filled', [n == filled, new_slot_empty], n + 1 == filled + 1)
+        yield ('n == nn and n == #filled slots among nn  ==>  no slot is empty', [n == filled, filled <= nn, n == nn], filled == nn)
+
+
+UNITS_DEQUEUE = [EnsembleDequeue, EnsembleDequeueLemma]
+
 UNITS_FORWARD = [EnsembleEnqueue, SwitchEnqueue]
